@@ -32,7 +32,7 @@ type c12cell struct {
 // so that the crash points also cover the store's way back to the previous database
 // the sixth cell: a first load driven by the UPDATER (the first handshake met an unreachable origin; the next refresh
 // cycle loads the entry for the first time) of a list that fails verification
-var c12cells = []c12cell{{"first", "accepted"}, {"first", "rejected"}, {"refresh", "accepted"}, {"refresh", "rejected"}, {"refresh", "swapfault"}, {"first-by-updater", "rejected"}}
+var c12cells = []c12cell{{"first", "accepted"}, {"first", "rejected"}, {"refresh", "accepted"}, {"refresh", "rejected"}, {"refresh", "swapfault"}, {"first-by-updater", "rejected"}, {"first-beside-updater", "accepted"}}
 
 // "st-switch": the k-th storage operation issued by the store switch itself (LevelDbStore.Update), with a list of 2500
 // entries: whatever the switch writes, it writes after thousands of operations of streaming
@@ -56,7 +56,7 @@ func init() {
 	register(&PropDef{ID: "C12", Plan: func(tier string) Plan {
 		h, o, s := c12dims(tier)
 		n := len(c12cells) * (h + o + 2*s + c12switchPoints(tier))
-		return Plan{Runs: n, Enumerated: n, Level: "fault_enumeration", Rule: "one run = (cell in {first load, refresh} x {accepted, rejected}) x (crash-point kind in {statement boundary k inside the CRL packages, os.* operation k, goleveldb storage operation k, storage operation k with a torn append, the k-th storage operation issued by the store switch itself for a list of 2500 entries}) for k = 1..K; runs whose k lies past the end of the operation are counted as 'past-end' and show that the enumeration covered every point of that cell; after the crash a fresh validator is provisioned on the copied work_dir with the origin down and strict on; non-trivial = the crash point was reached"}
+		return Plan{Runs: n, Enumerated: n, Level: "fault_enumeration", Rule: "one run = (cell in {first load, refresh} x {accepted, rejected}, a refresh whose directory swap fails, a rejected first load by the updater, and a first load by a handshake beside the updater's own half-streamed first load of the same location) x (crash-point kind in {statement boundary k inside the CRL packages, os.* operation k, goleveldb storage operation k, storage operation k with a torn append, the k-th storage operation issued by the store switch itself for a list of 2500 entries}) for k = 1..K; runs whose k lies past the end of the operation are counted as 'past-end' and show that the enumeration covered every point of that cell; after the crash a fresh validator is provisioned on the copied work_dir with the origin down and strict on; non-trivial = the crash point was reached"}
 	}, Run: runC12})
 }
 
@@ -96,6 +96,9 @@ func runC12(h *Harness) {
 	if h.Tier == "thorough" {
 		extra = Pick(tp, 3, 20, 60)
 	}
+	if cell.scenario == "first-beside-updater" {
+		extra = 40 // long enough for the updater to be caught in the middle of it
+	}
 	if kind == "st-switch" {
 		extra = 2500
 	}
@@ -125,7 +128,7 @@ func runC12(h *Harness) {
 		}
 		prev, newV = 0, 1
 	}
-	if cell.scenario == "first-by-updater" {
+	if cell.scenario == "first-by-updater" || cell.scenario == "first-beside-updater" {
 		loc.State = oDown
 		h.Handshake(n, "learn-while-down", w.ChainFor(loc.Cert(loc.Never[0]), w.A))
 		h.Quiesce()
@@ -162,6 +165,43 @@ func runC12(h *Harness) {
 			return nil
 		}
 	}
+	osK := k
+	if cell.scenario == "first-beside-updater" {
+		// the updater's own first load of the learnt location is under way: it has streamed part of the list into ITS
+		// staging database (how much: a function of k) and gets no further for the time being, while a handshake loads
+		// the same location, accepts the list and switches the store - the operation the crash point lands in. What the
+		// updater left half-done is nobody's list
+		var upd *Task
+		savedPre := h.S.pPre
+		h.S.pPre = (1 << 32) / 3 // the updater stops at statement boundaries, so that it can be caught in the middle
+		h.S.Run(func(v schedView) bool {
+			for _, t := range v.parked {
+				if !t.client && strings.Contains(h.S.siteStr(t.site), "crl/crlreader/") {
+					upd = t
+					return true
+				}
+			}
+			return false
+		}, h.S.Now()+11*time.Minute)
+		if upd == nil {
+			h.Probe("updater-not-streaming")
+		} else {
+			prog := (k * 53) % 400
+			if kind == "os" {
+				// the handshake's whole operation is some ten os.* operations: each of them is combined with six
+				// amounts of progress of the updater instead of counting on to sixty
+				prog, osK = 40+((k-1)/10)*60, 1+(k-1)%10
+			}
+			target := h.S.steps + prog
+			h.S.Run(func(v schedView) bool { return h.S.steps >= target || upd.done }, h.S.Now()+time.Minute)
+			if upd.done {
+				h.Probe("updater-finished-first")
+			}
+			upd.stallUntil = time.Now().Add(3 * time.Hour)
+			sc["updater_steps"] = prog
+		}
+		h.S.pPre = savedPre
+	}
 	// arm the crash point
 	h.S.crashScope = crlScope
 	h.S.hitCount = 0
@@ -172,7 +212,7 @@ func runC12(h *Harness) {
 	case "hit":
 		h.S.crashAtHit = int64(k)
 	case "os":
-		h.Disk.OsCrashAt = baseOs + k
+		h.Disk.OsCrashAt = baseOs + osK
 	case "st-switch":
 		h.Disk.StSnapScope, h.Disk.StSnapScopeAt, h.Disk.StSnapDir, h.Disk.StSnapTo = "LevelDbStore).Update", int64(k), n.WorkDir, img
 		if k%2 == 0 {
@@ -185,7 +225,7 @@ func runC12(h *Harness) {
 		}
 	}
 	// run the operation under test
-	if cell.scenario == "first" {
+	if cell.scenario == "first" || cell.scenario == "first-beside-updater" {
 		hs := h.StartHandshake(n, "op", w.ChainFor(loc.Cert(loc.Never[0]), w.A))
 		h.S.Run(func(v schedView) bool { return hs.Task.done || h.Disk.StSnapDone }, h.S.Now()+time.Hour)
 	} else {
